@@ -83,13 +83,13 @@ Proof. intros Hm Hi Ha Hlt Hal. split; [|split].
 (* a refused operation, an environment operation: the abstract machine does not move *)
 
 (* an accepted offer *)
-Lemma hist_offer F n off k j asm sp D msg fs req :
+Lemma hist_offer F n off k j asm sp D msg fs req q :
   hist_rep F None n off k j asm sp D ->
   k <= n <= k + 2 -> (forall x, n < x -> F x = []) -> (j <= length (F k))%nat ->
   Forall (frame_ok ses) fs -> span_sum fs = req -> 0 < req -> req mod 32 = 0 -> (n * sg_tlen g + off) mod 32 = 0 ->
   items_of fs = msg_items (sg_mpl g) msg ->
   hist_rep (upd F n (F n ++ fs)) None n (off + req) k j asm
-           (spec_step g sp (EvOffer msg (Ok (n * sg_tlen g + off + req)))) D.
+           (spec_step g sp (EvOffer msg (Ok (n * sg_tlen g + off + req)) q)) D.
 Proof. intros [A B C E O M I L K] Hk He Hj Hok Hsp Hreq Hr32 Hp32 Hit. cbn [pend_span] in E. rewrite Z.add_0_r in E.
   assert (Hspan : span_of (msg_items (sg_mpl g) msg) = req) by (rewrite <- Hit, (span_of_items ses) by assumption; assumption).
   destruct (acc_snoc_facts (sp_acc sp) (pos_after (sg_p0 g) (sp_stream sp)) msg (n * sg_tlen g + off + req) M I L ltac:(lia))
@@ -141,11 +141,30 @@ Proof. intros [A B C E O M I L K] Hk He Hj Hoff Hn Hpads. cbn [pend_span] in E. 
   - exact L.
   - exact K. Qed.
 
+(* padding laid at the tail without a rotation (the last term of the position space) *)
+Lemma hist_pad F n off k j asm sp D fs req :
+  hist_rep F None n off k j asm sp D ->
+  k <= n <= k + 2 -> (forall x, n < x -> F x = []) -> (j <= length (F k))%nat ->
+  frags (items_of fs) = [] -> 0 <= req ->
+  hist_rep (upd F n (F n ++ fs)) None n (off + req) k j asm
+           (mkSpec (sp_stream sp ++ [Pad req]) (sp_open sp) (sp_acc sp) (sp_del sp) (sp_ok sp)) D.
+Proof. intros [A B C E O M I L K] Hk He Hj Hfr Hreq. cbn [pend_span] in E. rewrite Z.add_0_r in E.
+  constructor; cbn [sp_stream sp_open sp_acc sp_del sp_ok pend_span].
+  - exact A.
+  - rewrite rest_upd by assumption. rewrite items_of_app, !frags_app, Hfr. cbn [frags]. rewrite !app_nil_r. exact B.
+  - rewrite frags_app. cbn [frags]. rewrite app_nil_r. exact C.
+  - rewrite pos_after_app. cbn [span_of item_len]. lia.
+  - exact O.
+  - rewrite pos_after_app. cbn [span_of item_len]. eapply Forall_impl; [|exact M]. intros a Ha. cbn beta in *. lia.
+  - exact I.
+  - exact L.
+  - exact K. Qed.
+
 (* an accepted claim *)
-Lemma hist_claim F n off k j asm sp D f len :
+Lemma hist_claim F n off k j asm sp D f len q :
   hist_rep F None n off k j asm sp D -> f_len f = len + 32 ->
   hist_rep F (Some f) n (off + span f) k j asm
-           (spec_step g sp (EvClaim len (Ok (n * sg_tlen g + off + span f)))) D.
+           (spec_step g sp (EvClaim len (Ok (n * sg_tlen g + off + span f)) q)) D.
 Proof. intros [A B C E O M I L K] Hf. cbn [pend_span] in E. rewrite Z.add_0_r in E.
   constructor; cbn [spec_step on_result sp_stream sp_open sp_acc sp_del sp_ok pend_span]; auto; try lia.
   rewrite K. cbn [andb]. apply Z.eqb_eq. unfold span. rewrite FA_32, Hf. replace (len + 32) with (32 + len) by ring. lia. Qed.
